@@ -59,6 +59,15 @@ CLAIMS.update({
     ),
 })
 
+CLAIMS.update({
+    "C15": dict(
+        technique="interprocedural may-alias + mutation-effect analysis by abstract interpretation (origin sets for arrays, separate identity sets for containers and wrapper objects, views vs copies per primitive table, summaries memoised per abstract arguments, CHA for unique method names)",
+        text="Decides the aliasing clause for every public entry point and every parameter: no path can reach an element store, in-place operator, mutator method, index_update, numpy in-place function or attribute store on an object reachable (through names, views, slices, containers, wrapper objects, closures, calls) from a caller-owned argument, except the documented in-place parameters (cp_mode_dot/tucker_mode_dot copy=False, hals_nnls V, index_update). 16 remaining violations on today's tree (user-supplied CP initialisation shares its factor list with the result) are genuine, cannot be repaired without breaking tensorly's own tests, and are listed one by one in known_findings.json.",
+        note="Trusted: user callables do not mutate; NumPy primitive view/copy table; a[i, j] is a scalar; draws on a caller-supplied RandomState are not mutation; parameters with numeric defaults are numbers; value semantics (strong updates through aliases not modelled); two named suppressions in _validate_contraction_modes with reasons.",
+        design="DESIGN.md §3 C15",
+    ),
+})
+
 NA = {
     "C04": "Equality of floating-point tensors across norms, signs, QR and SVD: no structural necessary condition exists that is not a frozen copy of the formula; the one shape-level clause (transforms must not write into their argument) is decided under C15.",
     "C05": "Singular values, orthonormality and optimal truncation error are numerical facts about LAPACK results; no sound static argument bounds them.",
